@@ -3,7 +3,11 @@
 impl  = the real `install_requirements` / `process_all_requirements` (files on disk, `installed_version` and
         `async_process_requirements` patched to a fake site-packages + index, stub hass / config entry)
 model = PsModel.C20.runOnce via verifdrv;  spec = PsModel.C20.specTable (order-free selection)
-verdict = an independent Python oracle (packaging.version) for the property itself.
+verdict = an independent Python oracle (packaging.version) for the property itself.  The oracle states the intended
+        behaviour and never looked at the code: a line counts only as `name` or `name==<valid version>` with a plain
+        name; malformed / empty / sentinel pins and ~= != >= <= > < , lines are ignored.  /repo does exactly that since
+        the fix: commits e2ec6b7 + d07dfc5 + 5d02a52 (findings C20-F1..F4, now "fixed": nothing excuses them any
+        more).  A pin with a version epoch (p==1!2.0) is a valid pin: recorded in every order.
 """
 import asyncio
 import copy
@@ -24,7 +28,7 @@ from common import Case, sx, parse_sx
 PROP = "C20"
 RULE = ("(perm) multisets of 2-4 requirement lines for 1-2 packages spread over 1-2 files, EVERY permutation of the lines "
         "over the line slots (and the DESIGN witnesses); (hist) up to 4 requirements.txt files in selected and decoy "
-        "directories, up to 6 lines each for up to 4 packages drawn from: pinned valid, unpinned, pinned malformed, "
+        "directories, up to 6 lines each for up to 4 packages drawn from: pinned valid (incl. version epochs such as 1!2.0), unpinned, pinned malformed, "
         "comment / blank / padded lines, >= <= > < , forms, several ==, ~= != ===; random installed / recorded / index / "
         "allow_all_imports, 1-3 consecutive runs with external site changes and edited or unchanged files in between; "
         "(combo) one package, all installed x recorded x required x allow_all combinations, run twice; (ver) all pairs of "
@@ -39,14 +43,17 @@ ASSUMPTIONS = [
     "a pinned requirement installs iff its version string is a version, an unpinned one iff the index knows it",
     "glob order inside one directory is taken from the real run (the model is told the order, not the reason for it)",
     "only ASCII blanks (space, tab) pad lines; names are plain identifiers or carry a ~=/!= specifier",
+    "versions are numeric releases with an optional epoch ('1!2.0'); pre/post/dev/local segments are outside the "
+    "generator and outside numVer",
 ]
 TRUSTED = ["tools/extract.py (REQUIREMENTS_PATHS, UNPINNED_VERSION)", "harness/run_C20.py (fake site, oracle, canonicalisation)",
            "modelled not verified: packaging.version, glob, importlib.metadata, Home Assistant's installer"]
 
 UNP = "_unpinned_version"
 NAMES = ["p", "q", "r", "s"]
-VALID = ["1", "1.0", "1.0.0", "2.0", "1.5", "0.9", "10.0", "1.10", "1.9", "2", "01.0", "0", "0.0.1", "3.2.1"]
-INVALID = ["", "abc", "1..0", "1_0", "=1.0", "1.0;x", UNP, "1.x"]
+VALID = ["1", "1.0", "1.0.0", "2.0", "1.5", "0.9", "10.0", "1.10", "1.9", "2", "01.0", "0", "0.0.1", "3.2.1",
+         "1!2.0", "0!1.5", "1!0.1", "2!0"]                      # with an epoch: a lone '!' is NOT a specifier
+INVALID = ["", "abc", "1..0", "1_0", "=1.0", "1.0;x", UNP, "1.x", "1!", "!1.0", "1!2!3"]
 SEL_DIRS = [[], ["apps", "a"], ["apps", "b"], ["modules", "m"], ["scripts", "s"]]
 DECOY_DIRS = [["apps"], ["apps", "a", "sub"], ["other"], ["scripts", "s", "deep"], ["modules", ".hid"], ["modules"]]
 
@@ -71,8 +78,9 @@ def pad(rng, s):
     return s
 
 
-def gen_line(rng, names, bad=0.03):
-    """`bad` = probability of a form that provokes one of the known findings (malformed pin, ~=, !=, ===)"""
+def gen_line(rng, names, bad=0.08):
+    """`bad` = probability of a form that provoked one of the findings C20-F1..F4 before they were fixed (malformed /
+    empty / sentinel pin, ~=, !=, ===); all of them must simply be ignored now"""
     n = rng.choice(names)
     r = rng.random()
     v, w = rng.choice(VALID), rng.choice(VALID)
@@ -121,7 +129,14 @@ def mk(kind, site, index, rec, steps, tags=(), group=None):
 
 WITNESSES = [["p==abc", "p==1.0"], ["p==", "p"], ["p", "p==abc"], ["p==1.0", "p==1.0.0", "p==2"], ["p", "p", "p==1.5"],
              ["p==1.0", "q==1.0", "p==0.9"], ["p==1.10", "p==1.9", "p"], ["p~=1.0", "p==2.0"], ["p==_unpinned_version", "p==1"],
-             ["p>=1", "p==1.0 # c", "#p==9"], ["p==1.0==2", "p==1.0"], ["p==", "p==1.0", "p==abc"]]
+             ["p>=1", "p==1.0 # c", "#p==9"], ["p==1.0==2", "p==1.0"], ["p==", "p==1.0", "p==abc"],
+             # witnesses of the fixed findings C20-F1..F4 (every permutation is run; must be green on /repo, and are
+             # the first VIOLATIONs on a tree without the fix: commits)
+             ["p", "p=="], ["p!=1.0", "p==2.0"], ["p~=1.0", "p!=1.0", "p"], ["p==_unpinned_version"],
+             ["p==_unpinned_version", "p"], ["p==abc"], ["p==", "q==1.0"], ["p===1.0", "p==0.9"],
+             # fix 5d02a52: only the ~= and != operators are rejected, a version epoch is a pin like any other
+             ["p==1!2.0"], ["p==1!2.0", "p==3.0"], ["p==1!2.0", "p", "p==10.0"], ["p==0!1.5", "p==1.5", "p==1!0.1"],
+             ["p!=1.0", "p==1!2.0", "p~=3.0"], ["p==1!", "p==1.0"]]
 
 
 def perm_cases(rng, multisets):
@@ -206,12 +221,12 @@ def gen_cases(rng, tier, search):
     multisets = [list(w) for w in WITNESSES]
     for _ in range(n_multi):
         names = ["p"] if rng.random() < 0.7 else ["p", "q"]
-        multisets.append([gen_line(rng, names, bad=0.07).strip() if rng.random() < 0.7 else gen_line(rng, names, bad=0.07)
+        multisets.append([gen_line(rng, names, bad=0.15).strip() if rng.random() < 0.7 else gen_line(rng, names, bad=0.15)
                           for _ in range(rng.choice([2, 3, 3, 4]))])
     cases = perm_cases(rng, multisets)
     cases += combo_cases()
     cases += [hist_case(rng) for _ in range(n_hist)]
-    pool = VALID + INVALID[:4]
+    pool = VALID + INVALID[:4] + INVALID[-3:]
     for a in pool:
         for b in pool:
             cases.append(Case({"kind": "ver", "a": a, "b": b}, "C20 " + sx(["ver", a, b]), tags=("ver",)))
@@ -458,7 +473,8 @@ def table_reason(files, got, want):
                     kind = "empty" if v == "" else "malformed"
                     return (f"invalid-pin-selected-{kind}: package {p!r} selected {v!r} which is not a version (expected "
                             f"{want.get(p)!r}); lines {_raw_lines(files, p)!r}")
-            if v == UNP and any((p + "==" + UNP) in l for l in _raw_lines(files, p)):
+            if v == UNP and any((p + "==" + UNP) in l for l in _raw_lines(files, p)) and \
+                    not any(_meaning(l) == (p, None) for l in _raw_lines(files, p)):
                 return f"sentinel-pin-as-unpinned: package {p!r}: a pin to the sentinel string counts as an unpinned requirement"
             if p not in want:
                 return f"ignored-line-not-ignored: package {p!r} = {v!r} comes only from lines that must be ignored"
@@ -560,8 +576,19 @@ def verdict(c):
     return None
 
 
+# signatures of the findings that are FIXED in /repo (status "fixed" in findings.d/C20.json).  A fixed entry suppresses
+# nothing: if the behaviour comes back it is a VIOLATION.  common.run_check only matches "open" entries; on top of that
+# classify() gives such a case a signature that no known-findings entry carries, so not even a stale or re-opened entry
+# with the old signature could excuse it.
+FIXED_SIGNATURES = {"invalid-pin-selected-malformed": "C20-F1", "invalid-pin-selected-empty": "C20-F2",
+                    "specifier-kept-as-name": "C20-F3", "sentinel-pin-as-unpinned": "C20-F4"}
+
+
 def classify(c, reason):
-    return reason.split(":", 1)[0]
+    sig = reason.split(":", 1)[0]
+    if sig in FIXED_SIGNATURES:
+        return f"regression-of-fixed-{FIXED_SIGNATURES[sig]}:{sig}"
+    return sig
 
 
 def replay_cases(obj):
@@ -633,7 +660,7 @@ def extra_coverage(cases):
                     b = l.split("#", 1)[0].strip()
                     form = ("blank/comment" if not b else "multi==" if b.count("==") > 1 else
                             "~=" if "~=" in b else "!=" if "!=" in b else "range" if re.search("[<>,]", b) else
-                            "pin" if "==" in b else "unpinned")
+                            "epoch-pin" if "==" in b and "!" in b else "pin" if "==" in b else "unpinned")
                     line_forms[form] = line_forms.get(form, 0) + 1
             if d["args"] is not None:
                 branches["install"] += 1
